@@ -20,6 +20,7 @@ EXPLANATION = (
     "for right alignment and (width - sc + 1) // 2 (half, rounded up) for centre, nothing for left; (6) DEADCMP: double-byte second-half tests used by the backward break search are not dead; (7) an already emitted line is taken back (to re-wrap an over-long word) only under an "
     "equality test of its consumed character against the space, never a newline."
     ' Added after seed round 3: (9) ACCUM on calc_coords / line_width; (10) OFFSTEP - a text offset is advanced by a constant only where the character stepped over is known to be one byte (a find() position of the newline, or under a text[x] == space test); (11) a segment cut with calc_trim_text declares end_col - start_col - pad_left - pad_right columns (linear forms compared).'
+    ' Round 4: (12) LOOPFRESH on the per-line state of _calculate_trimmed_segments / apply_text_layout; (13) a segment measured with calc_width is measured over its own offsets; (14) the str and the UTF-8 column searches leave their scan loop under the same condition.'
 )
 NOT_DECIDED = (
     "Completeness and non-duplication of characters as a value statement, that no laid-out line spans a hard newline, fill-optimality of 'any' wrapping, break-at-space-whenever-possible, "
